@@ -76,7 +76,10 @@ def run(tier, chk):
     g = ia32space.gen(1, False, None, chk)
     hexes = sorted(set(g['done']))
     if quick:
-        hexes = rnd.sample(hexes, min(len(hexes), 25000))
+        # every base form (one state per opcode row and operand form: MaxDev = 0) plus a sample of the one-deviation variants
+        base = sorted(set(ia32space.gen(0, False, None, chk)['done']))
+        rest = sorted(set(hexes) - set(base))
+        hexes = sorted(set(base) | set(rnd.sample(rest, min(len(rest), 20000))))
     recs = observe(hexes)
     verdicts, cnt = judge(chk, recs)
     report(chk, recs, verdicts)
